@@ -380,6 +380,20 @@ def let_block(fn_text, var):
     return fn_text[ob + 1:cb]
 
 
+def stmt_block(fn_text, head_re, occurrence=0):
+    """D25 (statement form): one `loop { .. }` / `while COND { .. }` statement of an extracted function, verbatim, found by the regular
+    expression of its head line; the unit wraps it in a function header of its own that names the variables of the enclosing function
+    the statement uses as parameters."""
+    ms = list(re.finditer(head_re, fn_text, re.M))
+    if occurrence >= len(ms):
+        raise Undecided('lost anchor: statement %s' % head_re)
+    m = ms[occurrence]
+    ob = fn_text.index('{', m.end() - 1) if fn_text[m.end() - 1] != '{' else m.end() - 1
+    cb = _match(fn_text, ob, '{', '}')
+    ls = fn_text.rfind('\n', 0, m.start()) + 1
+    return fn_text[ls:cb + 1] + '\n'
+
+
 def map_collect_expr_to_loop(s, rewrites=None):
     """D19 (expression form): `E.iter().map(|x| BODY).collect()` / `.collect::<Vec<T>>()` over a Vec place E, or
     `E.values().map(|x| BODY).collect()` over a map place E, becomes the block expression it stands for:
